@@ -281,6 +281,8 @@ func (p *Printer) emit(t *T) {
 		} else {
 			body = fmt.Sprintf("(bv2nat %s)", args[0])
 		}
+	case OpInt2BV:
+		body = fmt.Sprintf("((_ int2bv %d) %s)", t.W, args[0])
 	case OpEq:
 		body = fmt.Sprintf("(= %s %s)", args[0], args[1])
 	default:
